@@ -1,0 +1,11 @@
+//go:build verif
+
+package adjustments
+
+import "time"
+
+// VerifState exposes the controller state of a Pll to the verification harness
+// (read-only; see /verif props/C19.json).
+func (l *Pll) VerifState() (epoch, mode uint64, t0, t time.Time, a, b, i float64) {
+	return l.epoch, l.mode, l.t0, l.t, l.a, l.b, l.i
+}
